@@ -78,7 +78,7 @@ def rand_int(rng, fmt):
 def rand_float(rng, fmt):
     r = rng.random()
     if r < 0.3:
-        return rng.choice([0.0, -0.0, 1.0, -1.0, 0.5, -0.25, 1.5, 17.0, -3.42, 1e-5, 0.1, float("inf"),
+        return rng.choice([0.0, -0.0, 1.0, -1.0, 0.5, -0.25, 1.5, 17.0, -3.42, 1e-5, 0.1, float("inf"), float("nan"),
                            float("-inf"), 2.0 ** -126, 2.0 ** -149, 2.0 ** -150, 5e-324, 2.0 ** -1022,
                            F32MAX, -F32MAX, 16777217.0, 1.0000000596046448, 1.0000001788139343])
     if r < 0.5:
@@ -162,8 +162,7 @@ def generate(rng, tier, scale=1):
                 cases.append(chunk_case("b", "omit", size, rand_vals(rng, "b", 3), 0, strategy))
                 cases.append(chunk_case("h", ">", size, rand_vals(rng, "h", size + 1), -2, strategy))
         if not quick:
-            for strategy in ("struct", "array"):
-                cases.append(chunk_case("h", "<", 32769, [1, 2, 3], 0, strategy))
+            cases.append(chunk_case("h", "<", 32769, [1, 2, 3], 0, "array"))
     nrand = (700 if quick else 12000) * scale
     for _ in range(nrand):
         fmt = rng.choice("bhifd")
@@ -231,6 +230,12 @@ def generate(rng, tier, scale=1):
         rate = rng.choice([8000, 11025, 22050, 44100, 48000, 96000, 1, rng.randint(1, 400000)])
         cases.append(wav_case(bits, channels, rng.random() < 0.5, samples, rate=rate, take=take,
                               route=rng.choice(["path", "path", "fileobj", "wave"])))
+    for _ in range((24 if quick else 200) * scale):
+        bits = rng.choice([8, 16, 24, 32])
+        channels = rng.choice([3, 4])
+        nf = rng.randint(0, 3)
+        samples = [rand_sample(rng, bits) for _ in range(nf * channels)]
+        cases.append(wav_case(bits, channels, rng.random() < 0.5, samples))
     for _ in range((40 if quick else 400) * scale):
         bits = rng.choice([16, 24, 32])
         channels = rng.choice([1, 2])
@@ -369,8 +374,8 @@ def request(c):
         data = data[: -c["cut"]]
     r = {"entry": "wav", "bits": c["bits"], "channels": c["channels"], "rate": c["rate"],
          "keep": c["keep"], "data": list(data), "take": c.get("take")}
-    if not c.get("cut"):
-        r["samples"] = c["samples"]
+    if not c.get("cut") and c["channels"] in (1, 2):
+        r["samples"] = c["samples"]             # inside the property's quantifier: compare with the spec
     return r
 
 
@@ -428,6 +433,12 @@ def compare(c, io_, drv):
         if len(io_["out"]) != lz["taken"] or io_["closed"] != lz["closed"]:
             out.append(("model", "taken/closed differ from the model: impl=%d/%s model=%d/%s" % (
                 len(io_["out"]), io_["closed"], lz["taken"], lz["closed"])))
+    if "spec_any" in drv and "spec" in drv:
+        sa = drv["spec_any"]
+        sao = sa["out"] if take is None else sa["out"][:take]
+        if io_["out"] != sao or (sao and io_["kind"] != sa["kind"]):
+            out.append(("spec", "samples differ from the decoded data chunk (storedValue): impl=%s spec=%s" % (
+                _s(io_["out"]), _s(sao))))
     if "spec" in drv:
         sp = drv["spec"]
         so = sp["out"] if take is None else sp["out"][:take]
@@ -499,6 +510,7 @@ def tally(eng, c, io_):
         eng.count("wav.has_max", hi in c["samples"])
         eng.count("wav.has_negative", any(s < 0 for s in c["samples"]))
         eng.count("wav.truncated", bool(c.get("cut")))
+        eng.count("wav.malformed", "truncated" if c.get("cut") else "channels>2" if c["channels"] > 2 else "no")
         eng.count("wav.impl_err", str(io_.get("err")))
         eng.count("wav.regime", "int-exact" if c["keep"] else "dyadic-float-exact")
 
